@@ -108,7 +108,13 @@ type Explorer struct {
 }
 
 func (e *Explorer) runOnce(prefix []int) (x *Exec, infra string) {
-	x = &Exec{R: e.R, harness: e.Name, prefix: prefix}
+	return e.runOnceIn(prefix, e.R)
+}
+
+// runOnceIn executes the body with counters going to r (re-executions for the
+// determinism self-test count into a scratch Run).
+func (e *Explorer) runOnceIn(prefix []int, r *Run) (x *Exec, infra string) {
+	x = &Exec{R: r, harness: e.Name, prefix: prefix}
 	defer func() {
 		if r := recover(); r != nil {
 			if d, ok := r.(prefixDiverged); ok {
@@ -191,7 +197,7 @@ func (e *Explorer) Explore() bool {
 				reps = 2
 			}
 			for k := 0; k < reps; k++ {
-				y, infra2 := e.runOnce(x.choices)
+				y, infra2 := e.runOnceIn(x.choices, NewRun("", ""))
 				if infra2 != "" || y.obs != x.obs || !samePoints(x.points, y.points) || len(y.failed) != len(x.failed) {
 					e.R.InfraError("%s: nondeterministic re-execution of %v (%s)", e.Name, x.choices, infra2)
 					return false
